@@ -5,27 +5,59 @@
 //! `manual warm prog=…` feeds the algorithm directly (sequential); probes `in_flight`, `limit`, `ready`.
 //! `arrive … keep=1` (world.rs): the caller keeps the resolved `AdaptiveFuture` alive (it is wrapped by `held`) until
 //! `release <c>` — the slot must be free from the completion on, not from the release on.
-use crate::mw_limit::{build_algorithm, parse_prog, render_outs, run_prog};
+//!
+//! An inner service that is not ready at once (`Inner::strict`): persistent handles `h=1,2,…` (clones that live across
+//! operations). `manual ready h=<h> rdy=<r|p|e>` = one `poll_ready` on handle h, the inner service answering this poll
+//! with ready / pending / error *if it is asked* (`ready <h> ready|refused|pending|error`: `refused` = Pending without
+//! the inner service having been asked, i.e. the capacity check said no); `arrive <c> … h=<h> [rdy=…]` = the caller
+//! uses handle h: `call` if its last `poll_ready` said Ready, otherwise one `poll_ready` first (`result c notready` /
+//! `notready-inner` / `notready-error`).
+//!
+//! Clones on several OS threads under the baton scheduler (the service's own atomics are hooked too):
+//! `manual thread t=<i> prog=<A|E|P|C|D|I|S<d>|F|L…>` (A/E/P = poll_ready + call of a request whose inner call will
+//! succeed / fail / panic at its first poll; C = poll the oldest call future of this thread; D = drop it unpolled;
+//! I = `in_flight()`; S<d>/F/L as in `mw_limit`), `manual sched s=<tid,…>`: every operation starts with an explicit
+//! yield point, then one turn per hooked atomic. What a thread still holds at the end is dropped after the round.
+use crate::mw_limit::{build_algorithm, lat_ns, parse_prog, render_outs, run_prog, FOp};
+use crate::sched::run_scheduled_with;
 use crate::world::*;
-use std::collections::{BTreeMap, BTreeSet};
+use std::collections::{BTreeMap, BTreeSet, VecDeque};
+use std::future::Future;
+use std::panic::{catch_unwind, AssertUnwindSafe};
+use std::pin::Pin;
 use std::sync::atomic::Ordering;
-use std::sync::Arc;
+use std::sync::{Arc, Mutex};
 use std::task::{Context, Poll, Waker};
 use tower::{Layer, Service};
 use tower_resilience_adaptive::{AdaptiveError, AdaptiveLimiterLayer, AdaptiveService, Algorithm};
 
 type Svc = AdaptiveService<Inner, Algorithm>;
+type Fut = <Svc as Service<Req>>::Future;
 
 pub struct Adapter {
     svc: Svc,
+    /// the inner service's shared state: the readiness answer for the next scripted poll is put there
+    shared: Arc<Mutex<InnerShared>>,
     checked: BTreeMap<usize, Svc>,
     arrived: BTreeSet<usize>,
+    /// persistent handles: the clone and whether its most recent `poll_ready` answered Ready (no call since)
+    handles: BTreeMap<usize, (Svc, bool)>,
+    progs: Vec<String>,
 }
 
 impl Adapter {
     pub fn new(kv: &Kv) -> Adapter {
         let layer = AdaptiveLimiterLayer::new(build_algorithm(kv));
-        Adapter { svc: layer.layer(Inner::new()), checked: BTreeMap::new(), arrived: BTreeSet::new() }
+        let inner = Inner::strict("");
+        let shared = inner.shared.clone();
+        Adapter {
+            svc: layer.layer(inner),
+            shared,
+            checked: BTreeMap::new(),
+            arrived: BTreeSet::new(),
+            handles: BTreeMap::new(),
+            progs: Vec::new(),
+        }
     }
 }
 
@@ -56,24 +88,185 @@ fn ready_once(s: &mut Svc) -> Option<bool> {
     }
 }
 
+/// answer of one `poll_ready` whose inner answer is scripted
+#[derive(Clone, Copy, PartialEq)]
+enum Rd {
+    Ready,
+    /// Pending, woken, the inner service was not asked: the capacity check refused
+    Refused,
+    /// Pending, woken, the inner service was asked (and said pending)
+    Pending,
+    Error,
+    Lost,
+}
+impl Rd {
+    fn word(self) -> &'static str {
+        match self {
+            Rd::Ready => "ready",
+            Rd::Refused => "refused",
+            Rd::Pending => "pending",
+            Rd::Error => "error",
+            Rd::Lost => "lost-wakeup",
+        }
+    }
+}
+
+/// `poll_ready` once on `s`; the inner service answers this poll with `ans` ('r' / 'p' / 'e') if it is asked
+fn ready_scripted(shared: &Arc<Mutex<InnerShared>>, s: &mut Svc, ans: char) -> Rd {
+    shared.lock().unwrap().ready_script = VecDeque::from(vec![ans]);
+    let flag = Arc::new(Flag::new(false));
+    let w = Waker::from(flag.clone());
+    let mut cx = Context::from_waker(&w);
+    let r = <Svc as Service<Req>>::poll_ready(s, &mut cx);
+    let asked = {
+        let mut sh = shared.lock().unwrap();
+        let a = sh.ready_script.is_empty();
+        sh.ready_script.clear();
+        a
+    };
+    match r {
+        Poll::Ready(Ok(())) => Rd::Ready,
+        Poll::Ready(Err(_)) => Rd::Error,
+        Poll::Pending => {
+            if !flag.0.load(Ordering::SeqCst) {
+                Rd::Lost
+            } else if asked {
+                Rd::Pending
+            } else {
+                Rd::Refused
+            }
+        }
+    }
+}
+
+fn ans_of(kv: &Kv) -> char {
+    match kv.str("rdy", "r").as_str() {
+        "p" => 'p',
+        "e" => 'e',
+        _ => 'r',
+    }
+}
+
+// ------------------------------------------------------------------ clones on threads
+
+#[derive(Clone, Copy)]
+enum TOp {
+    Acquire(&'static str),
+    Finish,
+    DropCall,
+    ReadInFlight,
+    Fb(FOp),
+}
+
+fn parse_tprog(s: &str) -> Vec<TOp> {
+    let cs: Vec<char> = s.chars().collect();
+    let mut v = Vec::new();
+    let mut i = 0;
+    while i < cs.len() {
+        match cs[i] {
+            'A' => v.push(TOp::Acquire("0:ok")),
+            'E' => v.push(TOp::Acquire("0:err1")),
+            'P' => v.push(TOp::Acquire("0:panic")),
+            'C' => v.push(TOp::Finish),
+            'D' => v.push(TOp::DropCall),
+            'I' => v.push(TOp::ReadInFlight),
+            'S' if i + 1 < cs.len() => {
+                v.push(TOp::Fb(FOp::Succ(lat_ns((cs[i + 1] as u32).saturating_sub(48)))));
+                i += 1;
+            }
+            'F' => v.push(TOp::Fb(FOp::Fail)),
+            'L' => v.push(TOp::Fb(FOp::Read)),
+            _ => {}
+        }
+        i += 1;
+    }
+    v
+}
+
+/// One thread with its own clone. Every operation begins with an explicit yield point; the call futures the thread
+/// still holds when its program ends are handed back through `left`.
+fn thread_body(mut svc: Svc, tid: usize, prog: Vec<TOp>, left: Arc<Mutex<Vec<Fut>>>) -> Vec<String> {
+    let w = Waker::from(Arc::new(Flag::new(false)));
+    let mut cx = Context::from_waker(&w);
+    let mut calls: VecDeque<Fut> = VecDeque::new();
+    let mut out = Vec::new();
+    let mut nacq = 0;
+    for op in prog {
+        tower_resilience_core::verif::yield_point();
+        match op {
+            TOp::Acquire(plan) => match <Svc as Service<Req>>::poll_ready(&mut svc, &mut cx) {
+                Poll::Ready(Ok(())) => {
+                    let c = 1000 * (tid + 1) + nacq;
+                    nacq += 1;
+                    let word = format!("inner={}", plan);
+                    calls.push_back(svc.call(Req::new(c, &Kv::parse(&[word.as_str()]))));
+                }
+                _ => out.push("x".to_string()),
+            },
+            TOp::Finish => {
+                if let Some(mut f) = calls.pop_front() {
+                    let _ = catch_unwind(AssertUnwindSafe(|| {
+                        let _ = Pin::new(&mut f).poll(&mut cx);
+                    }));
+                    let _ = catch_unwind(AssertUnwindSafe(move || drop(f)));
+                }
+            }
+            TOp::DropCall => {
+                if let Some(f) = calls.pop_front() {
+                    drop(f);
+                }
+            }
+            TOp::ReadInFlight => out.push(svc.in_flight().to_string()),
+            TOp::Fb(f) => out.extend(run_prog(svc.algorithm(), &[f])),
+        }
+    }
+    *left.lock().unwrap() = calls.into_iter().collect();
+    out
+}
+
 impl Mw for Adapter {
     fn arrive(&mut self, c: usize, kv: &Kv) -> Option<CallFut> {
         self.arrived.insert(c);
         let req = Req::new(c, kv);
-        let mut svc = match self.checked.remove(&c) {
-            Some(s) => s,
-            None => {
-                let mut s = self.svc.clone();
-                match ready_once(&mut s) {
-                    Some(true) => s,
-                    Some(false) => {
-                        log(format!("result {} notready", c));
-                        return None;
-                    }
-                    None => {
-                        log(format!("result {} notready-lost-wakeup", c));
-                        return None;
-                    }
+        if let Some(mut svc) = self.checked.remove(&c) {
+            return Some(held(svc.call(req), render));
+        }
+        let h = kv.u64("h", 0) as usize;
+        if h > 0 {
+            // the caller uses the persistent handle h
+            if !self.handles.contains_key(&h) {
+                let s = self.svc.clone();
+                self.handles.insert(h, (s, false));
+            }
+            let shared = self.shared.clone();
+            let e = self.handles.get_mut(&h).unwrap();
+            if !e.1 {
+                let a = ready_scripted(&shared, &mut e.0, ans_of(kv));
+                if a != Rd::Ready {
+                    let why = match a {
+                        Rd::Refused => "notready",
+                        Rd::Pending => "notready-inner",
+                        Rd::Error => "notready-error",
+                        _ => "notready-lost-wakeup",
+                    };
+                    log(format!("result {} {}", c, why));
+                    return None;
+                }
+            }
+            e.1 = false;
+            return Some(held(e.0.call(req), render));
+        }
+        let mut svc = {
+            let mut s = self.svc.clone();
+            match ready_once(&mut s) {
+                Some(true) => s,
+                Some(false) => {
+                    log(format!("result {} notready", c));
+                    return None;
+                }
+                None => {
+                    log(format!("result {} notready-lost-wakeup", c));
+                    return None;
                 }
             }
         };
@@ -114,9 +307,49 @@ impl Mw for Adapter {
                     None => log(format!("check {} lost-wakeup", c)),
                 }
             }
+            "ready" => {
+                let h = kv.u64("h", 0) as usize;
+                if !self.handles.contains_key(&h) {
+                    let s = self.svc.clone();
+                    self.handles.insert(h, (s, false));
+                }
+                let shared = self.shared.clone();
+                let e = self.handles.get_mut(&h).unwrap();
+                let a = ready_scripted(&shared, &mut e.0, ans_of(kv));
+                e.1 = a == Rd::Ready;
+                log(format!("ready {} {}", h, a.word()));
+            }
             "warm" => {
                 let o = run_prog(self.svc.algorithm(), &parse_prog(&kv.str("prog", "")));
                 log(format!("warm {}", render_outs(&o)));
+                log(format!("limit {}", self.svc.limit()));
+            }
+            "thread" => {
+                let t = kv.u64("t", 0) as usize;
+                while self.progs.len() <= t {
+                    self.progs.push(String::new());
+                }
+                self.progs[t] = kv.str("prog", "");
+            }
+            "sched" => {
+                let schedule: Vec<usize> =
+                    kv.str("s", "").split(',').filter(|x| !x.is_empty()).filter_map(|x| x.parse().ok()).collect();
+                let mut bodies: Vec<Box<dyn FnOnce() -> Vec<String> + Send>> = Vec::new();
+                let mut lefts = Vec::new();
+                for (tid, p) in std::mem::take(&mut self.progs).into_iter().enumerate() {
+                    let svc = self.svc.clone();
+                    let left: Arc<Mutex<Vec<Fut>>> = Arc::new(Mutex::new(Vec::new()));
+                    lefts.push(left.clone());
+                    bodies.push(Box::new(move || thread_body(svc, tid, parse_tprog(&p), left)));
+                }
+                let (_, outs) = run_scheduled_with(bodies, &schedule, |l| log(l.to_string()));
+                for (i, o) in outs.iter().enumerate() {
+                    log(format!("th {} {}", i, render_outs(o)));
+                    let fs: Vec<Fut> = std::mem::take(&mut *lefts[i].lock().unwrap());
+                    for f in fs {
+                        drop(f);
+                    }
+                }
                 log(format!("limit {}", self.svc.limit()));
             }
             _ => {}
